@@ -528,6 +528,8 @@ def extra_checks(ctx, cases, impl_lines, model_lines):
         for i, ent in enumerate(iv[1:]):
             o = ops[i]
             STATS["images"] += len(ent[1])
+            if o[0] == 0 and ent[0] == 0 and len(ent[1]) == case[1] and not case[8]:
+                STATS["rotations_completed"] += 1
             if o[0] == 0:
                 if o[2][0] == 1 and ent[0] == 1 and len(ent[1]) == o[2][1] + 1:
                     STATS["faults_hit"] += 1
